@@ -2,7 +2,8 @@
    Leaf level (proved here): the one valid value the number handler emits satisfies every assertion it read.
    The composition with the graph theorems (C03 label => only valid leaves applied) and with the
    normaliser is tied by the correspondence streams N / J and the validator oracle; see DESIGN.md. *)
-From Fences Require Import JsonGen JsonLeaves JsonEnum.
+From Fences Require Import Json Normalize JsonGen JsonLeaves JsonEnum JsonValid JsonLeafSem.
+From Coq Require Import String List.
 From Coq Require Import ZArith.
 Local Open Scope Z_scope.
 
@@ -37,3 +38,33 @@ Theorem C01_string_leaf : forall (mn : nat) (mx : option Z),
   (mn <= length (repeat 120%nat mn))%nat /\ forall m, mx = Some m -> Z.of_nat (length (repeat 120%nat mn)) <= m.
 Proof. exact string_valid_ok. Qed.
 Print Assumptions C01_string_leaf.
+
+(* the same two leaves judged by the keyword semantics kvalid (the semantics of the C06 fragment theorem): whatever bound
+   keywords the alternative carries -- at most one lower and one upper, as the quantifier says, a positive multipleOf, a
+   conjunction that has an integer solution -- the number marked valid satisfies each of them *)
+Theorem C01_number_leaf_keywords : forall d mn emn mx emx mo,
+  read_num d "minimum" = Ok mn -> read_num d "exclusiveMinimum" = Ok emn ->
+  read_num d "maximum" = Ok mx -> read_num d "exclusiveMaximum" = Ok emx -> read_num d "multipleOf" = Ok mo ->
+  (mn = None \/ emn = None) -> (mx = None \/ emx = None) -> (forall m, mo = Some m -> 0 < m) ->
+  num_sat (fst (number_bounds mn emn mx emx)) (snd (number_bounds mn emn mx emx)) mo ->
+  let v := number_valid_value (fst (number_bounds mn emn mx emx)) (snd (number_bounds mn emn mx emx)) mo in
+  forall k val, dget k d = Some val ->
+    In k (kws ["minimum"; "maximum"; "exclusiveMinimum"; "exclusiveMaximum"]%string) -> kvalid k val (JNum v).
+Proof. exact number_leaf_kvalid. Qed.
+Print Assumptions C01_number_leaf_keywords.
+
+(* ... and the string marked valid satisfies minLength and maxLength as the alternative states them *)
+Theorem C01_string_leaf_keywords : forall d (mn : nat) mx,
+  read_nat d "minLength" 0%nat = Ok mn -> read_num d "maxLength" = Ok mx ->
+  (match mx with Some m => Z.ltb m (Z.of_nat mn) | None => false end) = false ->
+  forall k val, dget k d = Some val -> In k (kws ["minLength"; "maxLength"]%string) ->
+    (forall n, val = JNum n -> 0 <= n) ->
+    kvalid k val (JStr (repeat 120%nat mn)).
+Proof. exact string_leaf_kvalid. Qed.
+Print Assumptions C01_string_leaf_keywords.
+
+(* ... and every value the enum handler marks valid satisfies the enum keyword (members are scalars) *)
+Theorem C01_enum_leaf_keywords : forall ne en v, hashable_all en = true ->
+  In v (enum_valid ne en) -> kvalid (kw "enum"%string) (JArr en) v.
+Proof. exact enum_leaf_kvalid. Qed.
+Print Assumptions C01_enum_leaf_keywords.
